@@ -88,4 +88,5 @@ def search(rng, binaries, log):
 def extra_checks(tier, rng, binaries, log):
     return (S.net_bigbody_checks(tier, binaries, log, ['net_driver_tls'], PROP) +
             S.net_abrupt_checks(tier, binaries, log, ['net_driver_tls'], PROP) +
-            S.net_twoshut_checks(tier, binaries, log, ['net_driver_tls'], PROP))
+            S.net_twoshut_checks(tier, binaries, log, ['net_driver_tls'], PROP) +
+            S.net_lateafter_checks(tier, binaries, log, ['net_driver_tls'], PROP))
